@@ -245,6 +245,7 @@ func genScheds(rng *rand.Rand, m *baseMeta, n int) []sched {
 			s.Off = f.Size - 1
 		}
 		s.Step = []int64{0, 0, 1, 7, 64}[rng.Intn(5)]
+		s.Carry = s.Kind != "open" && i%2 == 1
 		if i%17 == 16 {
 			s.Target = -1 // every plan file, each with its own budget
 		}
